@@ -47,7 +47,7 @@ def locStr (r : Req) (tok : Nat) : String :=
 def handleFail (r : Req) : String :=
   match C01.compile r.base with
   | .unsupported _ => "unsupported"
-  | .err e => s!"builderr {errStr e.err} tok={e.tok} {locStr r e.tok}"
+  | .err e _ => s!"builderr {errStr e.err} tok={e.tok} {locStr r e.tok}"
   | .ok s =>
     let m := r.base.setup.m
     let m1 : Mach := { m with code := s.code, dict := s.dict,
